@@ -3110,6 +3110,12 @@ impl Server {
             }
         }
         
+        // Queued commands run by EXEC have no connection (conn_id 0) and must not block:
+        // with no data a blocking pop inside a transaction answers nil at once
+        if conn_id == 0 {
+            return Ok(RespFrame::null_array());
+        }
+        
         // No data available, register as blocked
         let deadline = timeout.map(|t| Instant::now() + t);
         self.blocking_manager.register_blocked(db_index, conn_id, keys.clone(), BlockingOp::BLPop, deadline)?;
@@ -3167,6 +3173,11 @@ impl Server {
                     RespFrame::from_bytes(value),
                 ])));
             }
+        }
+        
+        // Queued commands run by EXEC have no connection (conn_id 0) and must not block
+        if conn_id == 0 {
+            return Ok(RespFrame::null_array());
         }
         
         // No data available, register as blocked
